@@ -13,6 +13,7 @@ import ast
 
 from .. import stageclass
 from ..pipeline import Pipeline
+from ..model import unparse
 from ..values import Val, texts
 
 EXPLANATION = (
@@ -36,6 +37,48 @@ ACCEPTED = {
     "fresh-unbalanced(slice)": "rows drawn from a non-Balance selection",
     "solved-not-input-balanced": "solved_by != 'input-balanced'",
 }
+
+
+def rule_g6(ctx, pl: Pipeline) -> None:
+    """The input validator only labels rows whose solved flag is false: the flag
+    has to be reset for every row, unconditionally, before the validator runs."""
+    from ..cfg import CFG
+
+    ctx.rule("C04-G6", "before the input check the solved column is set to the constant False for every row on every path", 1)
+    st0 = pl.stages[0]
+    solved = pl.solved_col
+    f = st0.callee
+    cfg = CFG(f.node)
+    cands = []
+    for ks in list(st0.frame_stores) + list(st0.stores):
+        keys = getattr(ks, "keys", frozenset())
+        if solved not in keys and solved.text not in {k.text for k in keys if k.kind in ("const", "sym")}:
+            continue
+        func = ks.func
+        cands.append((ks, func))
+    ok_any = False
+    for ks, func in cands:
+        v = ks.value
+        const_false = isinstance(v, ast.Constant) and v.value is False
+        plain = ks.kind == "assign"
+        guarded = bool(getattr(ks, "atoms", [])) or bool(getattr(ks, "raw_guards", []))
+        every = False
+        if func is f:
+            top = ks.node
+            while getattr(top, "_parent", None) is not None and top._parent is not f.node:
+                top = top._parent
+            nid = cfg.node_of(top)
+            shape = isinstance(top, (ast.Assign, ast.For))
+            if nid is not None and shape:
+                every, _ = cfg.every_path_to_exit_passes(cfg.entry, lambda nd, nid=nid: nd.id == nid)
+            if isinstance(top, ast.Assign) and not guarded:
+                guarded = bool(cfg.guards(nid)) if nid is not None else True
+        ok = const_false and plain and not guarded and every
+        ok_any = ok_any or ok
+        ctx.instance("C04-G6", "%s: %s (constant False: %s, plain assignment: %s, unguarded: %s, on every path: %s)" % (func.name, unparse(ks.node)[:60], const_false, plain, not guarded, every), ks.where(), ok=ok)
+    if not ok_any:
+        where = cands[0][0].where() if cands else st0.where()
+        ctx.finding("C04-G6", "preprocess:solved-reset", where, "the solved column is not reset to False for every row before the input check (%s): a row that carries solved=True from an earlier run skips the input check and keeps its old label" % ("; ".join(unparse(k.node)[:50] for k, _ in cands) or "no store found"))
 
 
 def check(ctx) -> None:
@@ -123,6 +166,10 @@ def check(ctx) -> None:
     from . import c07
 
     c07.rule_e6(ctx, "C04-G4")
+    # G7: the composition the input check compares is defined for every element (shared with C07-E1)
+    c07.rule_e1(ctx, "C04-G7")
+    # G6: no verdict of an earlier run survives into the input check
+    rule_g6(ctx, pl)
     # G5: results are written back to the row they were computed for (shared with C06-B2)
     from . import c06
 
